@@ -5,6 +5,7 @@
 package main
 
 import (
+	"sort"
 	"time"
 	"strconv"
 	"strings"
@@ -89,6 +90,28 @@ func main() {
 		if a[0] == "clocks" {
 			return sourceClocks()
 		}
+		if a[0] == "observed" { // self-check: fields written by the entry points (census) minus fields the dumps print
+			obs := map[string]bool{}
+			for _, f := range tables.ObservedFields {
+				obs[f] = true
+			}
+			miss := map[string]bool{}
+			for _, e := range strings.Split(sourceWriters(), ";") {
+				if i := strings.Index(e, ":"); i >= 0 {
+					for _, f := range strings.Split(e[i+1:], "+") {
+						if f != "" && !obs[f] {
+							miss[f] = true
+						}
+					}
+				}
+			}
+			var l []string
+			for f := range miss {
+				l = append(l, f)
+			}
+			sort.Strings(l)
+			return "unobserved=" + strings.Join(l, "+")
+		}
 		return sourceConsts()
 	})
 	// dl <probe> <offline> <purge> (seconds): does Config.NewSession accept these deadlines?
@@ -151,6 +174,13 @@ func main() {
 	r.Do("src", "writers")
 	r.Do("src", "consts")
 	r.Do("src", "clocks")
+	r.Do("src", "observed")
+	// op pairs on one MAC in every order (SetDHCPv4IPOffer x DHCPv4Update x frame x purge), client online / offline / unknown
+	for i := 0; i < 432; i += 1 + rng.Intn(2) {
+		ops := g.OfferPairHistory(i)
+		r.Do("t5", append([]string{cfg, "0"}, ops...)...)
+		r.Stat("class.offer-pairs", 1)
+	}
 	// the address-class domain and the NICInfo domain: every class of IPv4 / IPv6 source x {router, own, client, new MAC} x
 	// {IP frame, ARP / NDP}, under the standard configuration and under every NICInfo variant
 	{
